@@ -7,6 +7,8 @@ package main
 
 import (
 	"bytes"
+	"context"
+	"database/sql"
 	"encoding/hex"
 	"encoding/json"
 	"fmt"
@@ -22,6 +24,8 @@ import (
 	"com.tuntun.rangers/node/src/core"
 	"com.tuntun.rangers/node/src/middleware/mysql"
 	"com.tuntun.rangers/node/src/middleware/types"
+
+	_ "github.com/mattn/go-sqlite3"
 
 	"verifharness/env"
 	"verifharness/mon"
@@ -62,6 +66,38 @@ func newGroup(rng *rand.Rand, pre []byte, parent []byte, createHeight uint64) *t
 		g.Members = append(g.Members, rb(rng, 32))
 	}
 	return g
+}
+
+// forkDue / sqlFaultDue decide (from the PRNG) whether this operation slot is a fork switch or an
+// SQL-fault injection (the latter costs the driver's busy timeout, so it is rare).
+func forkDue(rng *rand.Rand, op int) bool     { return rng.Intn(100) < 9 }
+func sqlFaultDue(rng *rand.Rand, op int) bool { return op == 3 && rng.Intn(100) < 12 }
+
+// addWithSQLLocked calls AddGroup while a second connection holds the write lock of the SQL
+// side index (storage0/logs/logs.db), so that its insert fails with "database is locked" after
+// the driver's busy timeout. The unchanged code panics out of AddGroup after the group is
+// completely on the chain; whatever happens, the caller judges the chain afterwards.
+func addWithSQLLocked(gc core.GroupChain, g *types.Group) (added bool) {
+	lockDB, err := sql.Open("sqlite3", "file:storage0/logs/logs.db?mode=rwc&_journal_mode=WAL")
+	if err != nil {
+		return gc.AddGroup(g) == nil
+	}
+	defer lockDB.Close()
+	conn, err := lockDB.Conn(context.Background())
+	if err != nil {
+		return gc.AddGroup(g) == nil
+	}
+	defer conn.Close()
+	if _, err := conn.ExecContext(context.Background(), "BEGIN IMMEDIATE"); err != nil {
+		return gc.AddGroup(g) == nil
+	}
+	defer conn.ExecContext(context.Background(), "ROLLBACK")
+	defer func() {
+		if e := recover(); e != nil {
+			added = false
+		}
+	}()
+	return gc.AddGroup(g) == nil
 }
 
 type walker struct {
@@ -225,6 +261,77 @@ func child(args []string) {
 		parent := listedID(rng.Intn(len(ref.List)))
 		choice := rng.Intn(100)
 		switch {
+		case forkDue(rng, op): // fork switch through the sync path: a branch received from a peer replaces everything above a common ancestor
+			h := rng.Intn(len(ref.List))
+			anc := gc.GetGroupByHeight(uint64(h))
+			if anc == nil {
+				continue
+			}
+			nb := 1 + rng.Intn(3)
+			shape := rng.Intn(4) // 0,1: linear branch; 2: one group links to an earlier branch group / the ancestor; 3: one group links to a random id
+			var branch []*types.Group
+			pre := anc.Id
+			for i := 0; i < nb; i++ {
+				linkTo := pre
+				if i > 0 && shape == 2 && i == nb-1 {
+					if i >= 2 {
+						linkTo = branch[i-2].Id
+					} else {
+						linkTo = anc.Id
+					}
+				}
+				if i > 0 && shape == 3 && i == nb-1 {
+					linkTo = rb(rng, 32)
+				}
+				// the parent must survive the switch: a listed group at or below the common ancestor
+				g := newGroup(rng, linkTo, listedID(rng.Intn(h+1)), uint64(10+op))
+				g.Header.CreateBlockHash = core.GetBlockChain().TopBlock().Hash.Bytes()
+				g.Header.Hash = g.Header.GenHash()
+				g.GroupHeight = uint64(h + 1 + i)
+				branch = append(branch, g)
+				pre = g.Id
+			}
+			logop(fmt.Sprintf("fork-switch ancestor=%d branch=%d shape=%d", h, nb, shape))
+			forkErr, onChain := core.VerifGroupForkSwitch(anc, branch)
+			r.Count("fork_switches", 1)
+			if forkErr != nil {
+				r.Count("fork_switches_refused_on_fork", 1) // nothing may have changed
+			} else {
+				// removal down to the ancestor, then the branch groups one by one while each links to the tip
+				if len(ref.List)-1-h > 0 {
+					r.Count("removes", int64(len(ref.List)-1-h))
+				}
+				ref.List = ref.List[:h+1]
+				tip := anc.Id
+				complete := true
+				for _, g := range branch {
+					if !bytes.Equal(g.Header.PreGroup, tip) {
+						complete = false
+						break
+					}
+					ref.List = append(ref.List, hx(g.Id))
+					tip = g.Id
+					r.Count("adds_accepted", 1)
+				}
+				if complete != onChain {
+					r.Count("fork_switch_result_differs_from_reference", 1)
+				}
+				if !complete {
+					r.Count("fork_switches_nonlinear", 1)
+				}
+			}
+		case sqlFaultDue(rng, op): // the SQL side index cannot be written while the group is added
+			g := newGroup(rng, lastID, parent, uint64(10+op))
+			logop("add-valid-with-sql-index-locked " + hx(g.Id))
+			added := addWithSQLLocked(gc, g)
+			r.Count("sql_fault_injections", 1)
+			// judged against what the chain itself says afterwards: either the group is completely on
+			// the chain or not at all; a half-done addition fails the walker under either reference
+			if last := gc.LastGroup(); added || (last != nil && bytes.Equal(last.Id, g.Id)) || gc.Count() == uint64(len(ref.List))+1 {
+				ref.List = append(ref.List, hx(g.Id))
+				r.Count("adds_accepted", 1)
+				r.Count("sql_fault_group_on_chain", 1)
+			}
 		case choice < 7: // the same valid successor arrives twice at once (consensus + sync)
 			g := newGroup(rng, lastID, parent, uint64(10+op))
 			g2 := *g
@@ -460,6 +567,6 @@ func main() {
 			"each sequence split into segments run by fresh processes over the same stores (restart = process death without Close + InitCore); all clauses of the property evaluated after every operation and after every restart; " +
 			"non-trivial: sequences with a remove followed by a valid add; distinct by sequence index (PRNG stream)",
 		Assumptions: []string{"stub ConsensusHelper accepts every group except the ones the workload marks", "restart is a process death (OS page cache survives), not a power loss"},
-		MustObserve: []string{"adds_accepted", "removes", "restarts", "invariant_evaluations", "height_lookups", "concurrent_episodes"},
+		MustObserve: []string{"adds_accepted", "removes", "restarts", "invariant_evaluations", "height_lookups", "concurrent_episodes", "fork_switches", "fork_switches_nonlinear", "sql_fault_injections"},
 	})
 }
